@@ -48,6 +48,21 @@ pub fn oracle_payload_reserved(p: &[u8], suffix: &[u8], reserved: u8) -> Result<
             format!("MessageFrame::get_message gives {}, Message::from_message_frame {} and a second get_message {}", name, registry::variant_name(&m2), registry::variant_name(&m3)),
         ));
     }
+    // the same frame found by the scanner behind two dead bytes is classified the same way
+    {
+        let mut buf = vec![0x00u8, 0x7F];
+        buf.extend_from_slice(&f);
+        let (_, found) = next_msg_frame(&buf);
+        match found {
+            Some(m4) => {
+                let d4 = format!("{:?}", m4.get_message());
+                if d4 != dbg {
+                    return Err(("c14:classification-depends-on-position".into(), format!("frame at offset 0 decodes to {}, the same frame found by the scanner at offset 2 to {}", name, d4.chars().take(60).collect::<String>())));
+                }
+            }
+            None => return Err(("c14:classification-depends-on-position".into(), "valid frame behind two dead bytes is not delivered by the scanner".into())),
+        }
+    }
     if p.len() < 2 {
         return if name == "Empty" {
             Ok("empty")
